@@ -47,15 +47,18 @@ def strain_field(rng, ntv, cls):
     raise ValueError(cls)
 
 
-def run_list(ctx, calc, strain, pairs, case_id, tag):
-    """Drive the real task list; returns (iso, adi) dicts keyed by Voigt pair, or None."""
+def run_list(ctx, calc, strain, pairs, case_id, tag, container="list"):
+    """Drive the real task list; returns (iso, adi) dicts keyed by Voigt pair, or None.
+    ``container``: how the request (an Iterable of keys) is handed over."""
     from cij.core.tasks import PhononContributionTaskList
     from cij.util import c_
     keys = [c_(a, b) for a, b in pairs]
+    request = {"list": lambda: keys, "tuple": lambda: tuple(keys), "generator": lambda: (k for k in keys), "iterator": lambda: iter(keys),
+               "dict-keys": lambda: dict.fromkeys(keys).keys()}[container]()
     try:
         with numpy.errstate(all="ignore"):
             tl = PhononContributionTaskList(calc)
-            tl.resolve(strain, keys)
+            tl.resolve(strain, request)
             tl.calculate()
             iso = tl.get_isothermal_results()
             adi = tl.get_adiabatic_results()
@@ -70,7 +73,8 @@ def run_list(ctx, calc, strain, pairs, case_id, tag):
     out_i, out_a = {}, {}
     for (a, b), k in zip(pairs, keys):
         if k not in iso or k not in adi:
-            ctx.violation("completeness:key-without-value", f"{tag}: requested c{a}{b} received no value", case_id, {"request": pairs})
+            ctx.violation("completeness:key-without-value" + ("" if container in ("list", "tuple") else ":request-given-as-" + container),
+                          f"{tag}: requested c{a}{b} received no value (request handed over as a {container})", case_id, {"request": pairs})
             return None
         out_i[(a, b)] = numpy.asarray(iso[k])
         out_a[(a, b)] = numpy.asarray(adi[k])
@@ -168,8 +172,13 @@ def _run(ctx, current, mon):
             requests.append(sub)
         requests.append(list(reversed(ALL21)))
         worst = 0.0
-        for req in requests:
-            r = run_list(ctx, calc, strain, req, case_id, f"{cls}/{len(req)} keys")
+        containers = ["list", "tuple", "generator", "dict-keys", "iterator"]
+        for ireq, req in enumerate(requests):
+            # the request is an Iterable of keys: mostly a list, every seventh time another kind of iterable
+            cont = containers[(ireq // 7) % 5] if ireq % 7 == 3 else "list"
+            r = run_list(ctx, calc, strain, req, case_id, f"{cls}/{len(req)} keys", container=cont)
+            if cont != "list":
+                ctx.count("requests_as_" + cont)
             ctx.evaluation(f"request-{'single' if len(req) == 1 else 'pair' if len(req) == 2 else 'subset'}|{cls}",
                            (isp, tuple(req)), nontrivial=len(req) >= 2 or T.classify(*req[0]) == "shear",
                            sample={"strain_class": cls, "request": ["c%d%d" % p for p in req]})
